@@ -85,10 +85,10 @@ func Subtraction(left, right value.Value) error {
 		case value.FloatType:
 			rv := value.Unwrap[*value.Float](right)
 			// nolint: gocritic
-			if rv.IsPositiveInf || math.IsInf(lv.Value+rv.Value, 1) {
+			if rv.IsPositiveInf || math.IsInf(lv.Value-rv.Value, 1) {
 				lv.Value = math.MaxFloat64
 				lv.IsPositiveInf = true
-			} else if rv.IsNegativeInf || math.IsInf(lv.Value+rv.Value, -1) {
+			} else if rv.IsNegativeInf || math.IsInf(lv.Value-rv.Value, -1) {
 				lv.Value = -math.MaxFloat64
 				lv.IsNegativeInf = true
 			} else {
